@@ -104,6 +104,16 @@ def check_variation(ed_name, var, vol, page):
         return res, "var-not-parsed"
     cand = v.exact_editions or v.variation_editions
     if len(set(cand)) != 1:
+        # a spelling that the database maps to several differently named editions has, without a year, no normalised
+        # reporter other than itself: it must not be identified with the canonical spelling of any one of them
+        names = {e.short_name for e in cand}
+        if len(names) > 1 and v.edition_guess is None and var != ed_name and len(set(cand0)) == 1 and c0.edition_guess is not None:
+            e = eq3(v, c0)
+            if e[0] or e[2]:
+                res.append(("ambiguous-variation-eq", f"{txt!r} (candidates {sorted(names)}, no year, no guess) compares equal to {canon!r}: ==,hash,resource = {e}"))
+            v2 = one_case("See " + txt + ".", txt)
+            if v2 is not None and eq3(v, v2) != (True, True, True):
+                res.append(("ambiguous-variation-self", f"two extractions of {txt!r} are not equal: {eq3(v, v2)}"))
         return res, "var-ambiguous"
     if cand[0].short_name != ed_name:
         return res, "var-shadowed"
